@@ -67,7 +67,7 @@ def build_flows(plan):
 
 PLANS = ["abc", "mixed", "backup", "two-calls", "two-calls-mixed"]
 SUSPEND = ["none", "request", "response", "error"]
-POLICIES = ["none", "respond", "kill"]
+POLICIES = ["none", "respond", "kill", "icpt_request", "icpt_response", "icpt_error"]
 
 
 def replayable_per_statement(f):
@@ -92,12 +92,17 @@ class Exec:
         name_of = {id(f): n for n, f in fl.items()}
         mine = set(name_of)
 
+        icpt = []  # replayed flows the addon policy has intercepted (the Intercept addon's effect); the user resumes them
+
         def policy(name, data, world):
             if id(data) in mine and name == "request":
                 if self.pol == "respond":
                     data.response = http.Response.make(200, b"from-addon")
                 elif self.pol == "kill" and data.killable:
                     data.kill()
+            if id(data) in mine and self.pol == "icpt_" + name:
+                data.intercept()
+                icpt.append(data)
 
         def suspend(name, data, world):
             return id(data) in mine and name == self.susp
@@ -130,7 +135,9 @@ class Exec:
 
         def finished():
             out = set()
-            held = {id(r[1]) for r in rw.suspended}
+            # a replay whose response / error hook is still being handled (async addon, or intercepted and waiting
+            # for the user) has not finished: ReplayHandler signals completion when that hook returns
+            held = {id(r[1]) for r in rw.suspended} | {id(f) for f in icpt if f.intercepted}
             for n, d in rw.hook_objs:
                 if id(d) in mine and n in ("response", "error") and id(d) not in held:
                     out.add(name_of[id(d)])
@@ -175,21 +182,26 @@ class Exec:
             submit(first)
             observe()
             for _ in range(80):
-                acts = []
                 pend = rw.pending_connects()
                 e = current_server()
+                waiting = [f for f in icpt if f.intercepted]
+                # progress actions in default priority; the first one is the default, the others are alternatives
+                cands = []
                 if rw.suspended:
-                    acts.append(("hook",))
-                elif pend:
-                    acts.append(("ok",))
-                elif e is not None and id(e) in st["part"]:
-                    acts.append(("rest",))
+                    cands.append(("hook",))
+                if waiting:
+                    cands.append(("resume",))
+                if pend:
+                    cands.append(("ok",))
+                if e is not None and id(e) in st["part"]:
+                    cands.append(("rest",))
                 elif e is not None and has_request(e):
-                    acts.append(("resp",))
-                elif st["second_pending"]:
-                    acts.append(("start2",))
-                if not acts:
+                    cands.append(("resp",))
+                if st["second_pending"]:
+                    cands.append(("start2",))
+                if not cands:
                     break
+                acts = [cands[0]]
                 if pend:
                     acts.append(("refuse",))
                 if e is not None and id(e) not in st["part"] and has_request(e):
@@ -198,13 +210,14 @@ class Exec:
                     acts.append(("eof",))
                 if st["stops"] < 1:
                     acts.append(("stop",))
-                if st["second_pending"] and ("start2",) not in acts:
-                    acts.append(("start2",))
+                acts.extend(cands[1:])
                 a = acts[choose(len(acts))] if len(acts) > 1 else acts[0]
                 trace.append(a[0])
                 k = a[0]
                 if k == "hook":
                     rw.complete_hook(0)
+                elif k == "resume":
+                    rw.act(waiting[0].resume)
                 elif k == "ok":
                     rw.connect_ok(pend[0])
                 elif k == "refuse":
@@ -246,6 +259,10 @@ class Exec:
                 if rw.suspended:
                     rw.complete_hook(0)
                     progressed = True
+                for f in icpt:
+                    if f.intercepted:
+                        rw.act(f.resume)
+                        progressed = True
                 for e in rw.pending_connects():
                     rw.connect_fail(e)
                     progressed = True
@@ -337,6 +354,12 @@ def specs(tier):
             out.append((plan, "none", "kill", True))
             out.append((plan, "response", "respond", True))
             out.append((plan, "error", "kill", True))
+        if plan in ("abc", "two-calls"):
+            # a replayed flow is intercepted in a hook (intercept filter active) and resumed by the user, possibly late
+            out.append((plan, "none", "icpt_response", True))
+            out.append((plan, "none", "icpt_request", True))
+        if plan == "abc":
+            out.append((plan, "none", "icpt_error", True))
         if tier == "thorough" or plan == "abc":
             out.append((plan, "none", "none", False))
             out.append((plan, "response", "none", False))
@@ -351,7 +374,7 @@ def run(ctx):
     bound = ctx.pick(2, 3)
     sp = specs(ctx.tier)
     ctx.bounds = {"plans": PLANS, "suspended_hook": SUSPEND, "policies": POLICIES, "deviation_bound": bound, "specs": len(sp),
-                  "actions": ["hook", "connect ok", "connect refused", "response whole", "response in 2 parts", "origin EOF", "stop (once)", "second replay.client call"]}
+                  "actions": ["hook", "connect ok", "connect refused", "response whole", "response in 2 parts", "origin EOF", "stop (once)", "second replay.client call", "resume intercepted replay"]}
     ctx.log("%d specs, deviation bound %d" % (len(sp), bound))
     mbfs.dfs_dev_many(sp, make_exec, bound, ctx.tally, log=ctx.log)
 
